@@ -35,6 +35,7 @@ theorem OutRel.shape_eq {R : C1 → C2 → Prop} {a : Out K V C1} {b : Out K V C
     returned by copy() -/
 structure MSim (M1 : Mach K V C1) (M2 : Mach K V C2) (R : Nat → C1 → C2 → Prop) (RC : C1 → C2 → Prop) : Prop where
   weaken : ∀ {n c s}, R (n + 1) c s → R n c s
+  log : ∀ {n c s}, R n c s → M1.log c = M2.log s
   find : ∀ {n c s} (k : K), R n c s → M1.find c k = M2.find s k
   hit : ∀ {n c s} (k : K), R n c s → M1.find c k = true →
     R n (M1.hit c k).1 (M2.hit s k).1 ∧ ∃ v, (M1.hit c k).2 = .val v ∧ (M2.hit s k).2 = .val v
@@ -113,39 +114,28 @@ theorem MSim.stepWith (h : MSim M1 M2 R RC) {g1 : C1 → K → C1 × Out K V C1}
   | eqOther => exact h.step _ hr rfl
   | neOther => exact h.step _ hr rfl
 
-/-- the two program bodies end the same way -/
-def EndRel (a : Option (Out K V C1)) (b : Option (Out K V C2)) : Prop :=
-  (a = none ∧ b = none) ∨ (a = some .keyError ∧ b = some .keyError) ∨ (a = some .raised ∧ b = some .raised)
-
-theorem MSim.runWith (h : MSim M1 M2 R RC) {g1 : C1 → K → C1 × Out K V C1} {g2 : C2 → K → C2 × Out K V C2}
-    (hg : GSim R RC g1 g2) (l : List (Op K V)) {n : Nat} {c : C1} {s : C2} (hr : R n c s) :
-    R n (runWith (M1.stepWith g1) c l).1 (runWith (M2.stepWith g2) s l).1 ∧
-    EndRel (runWith (M1.stepWith g1) c l).2 (runWith (M2.stepWith g2) s l).2 := by
-  induction l generalizing c s with
-  | nil => exact ⟨hr, Or.inl ⟨rfl, rfl⟩⟩
-  | cons a as ih =>
-    have hs := h.stepWith hg hr a
-    simp only [C02.runWith]
-    cases h1 : M1.stepWith g1 c a with
+/-- the two runs of a callback stay related and end with the same outcome -/
+theorem MSim.runProg (h : MSim M1 M2 R RC) {g1 : C1 → K → C1 × Out K V C1} {g2 : C2 → K → C2 × Out K V C2}
+    (hg : GSim R RC g1 g2) (p : OmProg K V) {n : Nat} {c : C1} {s : C2} (hr : R n c s) :
+    R n (runProg (M1.stepWith g1) c p).1 (runProg (M2.stepWith g2) s p).1 ∧
+    (runProg (M1.stepWith g1) c p).2 = (runProg (M2.stepWith g2) s p).2 := by
+  induction p generalizing c s with
+  | done r => exact ⟨hr, rfl⟩
+  | call op next ih =>
+    have hs := h.stepWith hg hr op
+    simp only [C02.runProg]
+    cases h1 : M1.stepWith g1 c op with
     | mk c' o1 =>
-      cases h2 : M2.stepWith g2 s a with
+      cases h2 : M2.stepWith g2 s op with
       | mk s' o2 =>
         rw [h1, h2] at hs
-        obtain ⟨a1, a2⟩ := hs
-        cases a2 with
-        | keyError => exact ⟨a1, Or.inr (Or.inl ⟨rfl, rfl⟩)⟩
-        | raised => exact ⟨a1, Or.inr (Or.inr ⟨rfl, rfl⟩)⟩
-        | none => exact ih a1
-        | val v => exact ih a1
-        | item k v => exact ih a1
-        | bool b => exact ih a1
-        | nat n => exact ih a1
-        | items l => exact ih a1
-        | cache hn => exact ih a1
+        simp only []
+        rw [hs.2.shape_eq]
+        exact ih o2.shape hs.1
 
 /-- MAIN generic lemma: `__getitem__` with a re-entrant on_miss preserves the simulation, returns equal
     results, and a KeyError outcome means a miss was counted that no soft miss has used up yet -/
-theorem MSim.rget (h : MSim M1 M2 R RC) (P : K → OmProg K V) (fuel : Nat) :
+theorem MSim.rget (h : MSim M1 M2 R RC) (P : List K → K → OmProg K V) (fuel : Nat) :
     GSim R RC (M1.rget P fuel) (M2.rget P fuel) := by
   induction fuel with
   | zero =>
@@ -173,30 +163,27 @@ theorem MSim.rget (h : MSim M1 M2 R RC) (P : K → OmProg K V) (fuel : Nat) :
       refine ⟨b1, by rw [b2, b3]; exact OutRel.val v, fun e => ?_⟩
       rw [b2] at e; cases e
     | false =>
-      rw [← hf, hc]
+      rw [← hf, hc, ← h.log hr]
       simp only [Bool.false_eq_true, if_false]
-      have hb := h.runWith ih (P k).acts (h.missed k hr)
-      cases h1 : C02.runWith (M1.stepWith (M1.rget P m)) (M1.missed c k) (P k).acts with
+      have hb := h.runProg ih (P (M1.log c) k) (h.missed k hr)
+      cases h1 : C02.runProg (M1.stepWith (M1.rget P m)) (M1.missed c k) (P (M1.log c) k) with
       | mk c2 e1 =>
-        cases h2 : C02.runWith (M2.stepWith (M2.rget P m)) (M2.missed s k) (P k).acts with
+        cases h2 : C02.runProg (M2.stepWith (M2.rget P m)) (M2.missed s k) (P (M1.log c) k) with
         | mk s2 e2 =>
           rw [h1, h2] at hb
           obtain ⟨a1, a2⟩ := hb
           simp only [] at a1 a2
-          rcases a2 with ⟨rfl, rfl⟩ | ⟨rfl, rfl⟩ | ⟨rfl, rfl⟩
-          · cases hres : (P k).res with
-            | ret v =>
-              refine ⟨h.weaken (h.setitem k v a1), OutRel.val v, fun e => ?_⟩
-              simp at e
-            | keyError => exact ⟨h.weaken a1, OutRel.keyError, fun _ => a1⟩
-            | error =>
-              refine ⟨h.weaken a1, OutRel.raised, fun e => ?_⟩
-              simp at e
-          · exact ⟨h.weaken a1, OutRel.keyError, fun _ => a1⟩
-          · refine ⟨h.weaken a1, OutRel.raised, fun e => ?_⟩
+          subst a2
+          cases e1 with
+          | ret v =>
+            refine ⟨h.weaken (h.setitem k v a1), OutRel.val v, fun e => ?_⟩
+            simp at e
+          | keyError => exact ⟨h.weaken a1, OutRel.keyError, fun _ => a1⟩
+          | error =>
+            refine ⟨h.weaken a1, OutRel.raised, fun e => ?_⟩
             simp at e
 
-theorem MSim.rstep (h : MSim M1 M2 R RC) (P : K → OmProg K V) (fuel : Nat) {n : Nat} {c : C1} {s : C2}
+theorem MSim.rstep (h : MSim M1 M2 R RC) (P : List K → K → OmProg K V) (fuel : Nat) {n : Nat} {c : C1} {s : C2}
     (hr : R n c s) (op : Op K V) :
     R n (M1.rstep P fuel c op).1 (M2.rstep P fuel s op).1 ∧
     OutRel RC (M1.rstep P fuel c op).2 (M2.rstep P fuel s op).2 :=
